@@ -2,45 +2,76 @@ module zvh
 
 go 1.23
 
-require (
-	github.com/brimdata/super v0.0.0
-	github.com/segmentio/ksuid v1.0.2
-	go.uber.org/zap v1.23.0
-)
+require github.com/brimdata/super v0.0.0
 
 require (
+	github.com/agnivade/levenshtein v1.1.1
+	github.com/alecthomas/units v0.0.0-20190924025748-f65c72e2690d
+	github.com/apache/arrow/go/v14 v14.0.0
+	github.com/araddon/dateparse v0.0.0-20210429162001-6b43995a97de
+	github.com/aws/aws-sdk-go v1.36.17
+	github.com/axiomhq/hyperloglog v0.0.0-20191112132149-a4c4c47bc57f
+	github.com/go-redis/redis/v8 v8.4.11
+	github.com/golang-jwt/jwt/v4 v4.4.3
+	github.com/golang/mock v1.5.0
+	github.com/gorilla/mux v1.7.5-0.20200711200521-98cb6bf42e08
+	github.com/gosuri/uilive v0.0.4
+	github.com/hashicorp/golang-lru/v2 v2.0.1
+	github.com/kr/text v0.2.0
+	github.com/lestrrat-go/strftime v1.0.6
+	github.com/paulbellamy/ratecounter v0.2.0
+	github.com/pbnjay/memory v0.0.0-20190104145345-974d429e7ae4
+	github.com/peterh/liner v1.1.0
+	github.com/pierrec/lz4/v4 v4.1.18
+	github.com/pkg/browser v0.0.0-20210911075715-681adbf594b8
+	github.com/pmezard/go-difflib v1.0.0
+	github.com/prometheus/client_golang v1.14.0
+	github.com/prometheus/client_model v0.3.0
+	github.com/rs/cors v1.8.0
+	github.com/segmentio/ksuid v1.0.2
+	github.com/stretchr/testify v1.8.4
+	github.com/x448/float16 v0.8.4
+	github.com/yuin/goldmark v1.4.13
+	go.uber.org/zap v1.23.0
+	golang.org/x/exp v0.0.0-20231006140011-7918f672742d
+	golang.org/x/sync v0.4.0
+	golang.org/x/sys v0.13.0
+	golang.org/x/term v0.13.0
+	golang.org/x/text v0.13.0
+	gopkg.in/natefinch/lumberjack.v2 v2.0.0
+	gopkg.in/yaml.v3 v3.0.1
 	github.com/JohnCGriffin/overflow v0.0.0-20211019200055-46fa312c352c // indirect
-	github.com/agnivade/levenshtein v1.1.1 // indirect
-	github.com/alecthomas/units v0.0.0-20190924025748-f65c72e2690d // indirect
 	github.com/andybalholm/brotli v1.0.5 // indirect
-	github.com/apache/arrow/go/v14 v14.0.0 // indirect
 	github.com/apache/thrift v0.17.0 // indirect
-	github.com/araddon/dateparse v0.0.0-20210429162001-6b43995a97de // indirect
-	github.com/aws/aws-sdk-go v1.36.17 // indirect
-	github.com/axiomhq/hyperloglog v0.0.0-20191112132149-a4c4c47bc57f // indirect
+	github.com/beorn7/perks v1.0.1 // indirect
+	github.com/cespare/xxhash/v2 v2.2.0 // indirect
+	github.com/davecgh/go-spew v1.1.1 // indirect
 	github.com/dgryski/go-metro v0.0.0-20180109044635-280f6062b5bc // indirect
+	github.com/dgryski/go-rendezvous v0.0.0-20200823014737-9f7001d12a5f // indirect
 	github.com/goccy/go-json v0.10.2 // indirect
 	github.com/golang/protobuf v1.5.3 // indirect
 	github.com/golang/snappy v0.0.4 // indirect
 	github.com/google/flatbuffers v23.5.26+incompatible // indirect
-	github.com/hashicorp/golang-lru/v2 v2.0.1 // indirect
 	github.com/jmespath/go-jmespath v0.4.0 // indirect
+	github.com/klauspost/asmfmt v1.3.2 // indirect
 	github.com/klauspost/compress v1.16.7 // indirect
 	github.com/klauspost/cpuid/v2 v2.2.5 // indirect
-	github.com/kr/text v0.2.0 // indirect
-	github.com/lestrrat-go/strftime v1.0.6 // indirect
-	github.com/pierrec/lz4/v4 v4.1.18 // indirect
+	github.com/mattn/go-isatty v0.0.19 // indirect
+	github.com/mattn/go-runewidth v0.0.10 // indirect
+	github.com/matttproud/golang_protobuf_extensions v1.0.1 // indirect
+	github.com/minio/asm2plan9s v0.0.0-20200509001527-cdd76441f9d8 // indirect
+	github.com/minio/c2goasm v0.0.0-20190812172519-36a3d3bbc4f3 // indirect
 	github.com/pkg/errors v0.9.1 // indirect
-	github.com/x448/float16 v0.8.4 // indirect
+	github.com/prometheus/common v0.37.0 // indirect
+	github.com/prometheus/procfs v0.8.0 // indirect
+	github.com/rivo/uniseg v0.1.0 // indirect
 	github.com/zeebo/xxh3 v1.0.2 // indirect
+	go.opentelemetry.io/otel v0.16.0 // indirect
 	go.uber.org/atomic v1.7.0 // indirect
 	go.uber.org/multierr v1.8.0 // indirect
-	golang.org/x/exp v0.0.0-20231006140011-7918f672742d // indirect
+	golang.org/x/mod v0.13.0 // indirect
 	golang.org/x/net v0.17.0 // indirect
-	golang.org/x/sync v0.4.0 // indirect
-	golang.org/x/sys v0.13.0 // indirect
-	golang.org/x/term v0.13.0 // indirect
-	golang.org/x/text v0.13.0 // indirect
+	golang.org/x/tools v0.14.0 // indirect
 	golang.org/x/xerrors v0.0.0-20220907171357-04be3eba64a2 // indirect
 	google.golang.org/genproto/googleapis/rpc v0.0.0-20231002182017-d307bd883b97 // indirect
 	google.golang.org/grpc v1.58.2 // indirect
